@@ -124,6 +124,16 @@ CLAIMED["C06"] = (
     "DESIGN.md 3 C06",
 )
 
+CLAIMED["C11"] = (
+    XH + " over symbolic leading bytes with stand-in decompressors; " + SMT + " for find_adapter_for_stream (peeked bytes as a z3 string, <= 64 bytes)",
+    "The dispatch logic is decided: open_stream's codec choice equals the magic-number table for every byte string of <= 6 leading bytes, with and without peek(), and the "
+    "decompressor wraps the object that was peeked; find_adapter_for_stream's avro/stream/none decision for every <= 64-byte prefix (SMT, from the AST and live constants); "
+    "open_path's opener/mode for every suffix x mode x clobber x exists x stdio spelling, with every binary read being sniffed; RecordAdapter's URL table. "
+    "Only dispatch is claimed: that is where the repo's own logic lives.",
+    "Trusted/outside: the codecs themselves (C libraries) and the record content after decompression; replays use the real codecs on real files, stdin included.",
+    "DESIGN.md 3 C11",
+)
+
 NOT_APPLICABLE = {
     "C13": "every operation the property constrains (datetime construction/arithmetic, fromisoformat, zoneinfo, fastavro/sqlite3 conversions) is C code; "
     "CrossHair realises each datetime component at the C constructor and the repo-side logic is two value-free ifs, so no value-level case would be decided by the solver (DESIGN.md 6)",
